@@ -238,6 +238,42 @@ structure Cfg (F : Type) where
 
 def Cfg.lang? {F} (c : Cfg F) (name : String) : Option (Lang F) := c.langs.find? (·.name = name)
 
+/-- `char::to_lowercase` for the scripts the configured languages and the generators use: ASCII,
+    Latin-1, Latin Extended-A (incl. `İ` ↦ `i` + combining dot), Greek and Cyrillic capitals, and
+    the compatibility letters `ẞ`, Kelvin `K`, Ohm `Ω`, Ångström `Å`.  Every other character is
+    left unchanged (outside these blocks the model makes no claim; the correspondence run flags it). -/
+def lowerChar (c : Char) : List Char :=
+  let n := c.toNat
+  if 65 ≤ n && n ≤ 90 then [Char.ofNat (n + 32)]
+  else if n < 192 then [c]
+  else if n ≤ 222 then (if n = 215 then [c] else [Char.ofNat (n + 32)])
+  else if n < 256 then [c]
+  else if n ≤ 303 then (if n % 2 = 0 then [Char.ofNat (n + 1)] else [c])
+  else if n = 304 then ['i', Char.ofNat 775]
+  else if n = 305 then [c]
+  else if n ≤ 311 then (if n % 2 = 0 then [Char.ofNat (n + 1)] else [c])
+  else if n = 312 then [c]
+  else if n ≤ 328 then (if n % 2 = 1 then [Char.ofNat (n + 1)] else [c])
+  else if n = 329 then [c]
+  else if n ≤ 375 then (if n % 2 = 0 then [Char.ofNat (n + 1)] else [c])
+  else if n = 376 then [Char.ofNat 255]
+  else if n ≤ 382 then (if n % 2 = 1 then [Char.ofNat (n + 1)] else [c])
+  else if n = 902 then [Char.ofNat 940]
+  else if 904 ≤ n && n ≤ 906 then [Char.ofNat (n + 37)]
+  else if n = 908 then [Char.ofNat 972]
+  else if n = 910 || n = 911 then [Char.ofNat (n + 63)]
+  else if 913 ≤ n && n ≤ 939 then (if n = 930 then [c] else [Char.ofNat (n + 32)])
+  else if 1024 ≤ n && n ≤ 1039 then [Char.ofNat (n + 80)]
+  else if 1040 ≤ n && n ≤ 1071 then [Char.ofNat (n + 32)]
+  else if n = 7838 then [Char.ofNat 223]
+  else if n = 8490 then ['k']
+  else if n = 8486 then [Char.ofNat 969]
+  else if n = 8491 then [Char.ofNat 229]
+  else [c]
+
+/-- `str::to_lowercase` (without the final-sigma rule) -/
+def lowerStr (s : String) : String := String.ofList (s.toList.flatMap lowerChar)
+
 def assoc? {α} (l : List (String × α)) (k : String) : Option α :=
   match l with
   | [] => none
